@@ -1,7 +1,14 @@
+"""C04 - every change reaches the database: commit + reload reproduces the contents."""
 from props import _generic as g
 
 
 def run(ctx):
     fns = g.run_pyvc(ctx, "C04")
-    ctx.standin("persist_rt", families=tuple("OO,II".split(",")))
-    return "proof", "Engine P obligations on %d functions of _base.py for C04 plus the bounded stand-in persist_rt" % len(fns)
+    ctx.standin("persist_rt", families=("OO", "II") if ctx.tier == "quick" else ("OO", "II", "LF", "QQ", "fs", "IO"))
+    return "proof", (
+        "Engine P: every leaf mutator of the Python implementation (%d functions: Bucket/Set _set, _del, _split, "
+        "clear, _deleteNextBucket) is proved to request registration (_p_changed) exactly when the serialised "
+        "state of the leaf changes, and to leave the flag alone otherwise (clauses flagged/unflagged; list "
+        "mutation in place does not flag by itself, A3). The interior-node level, the C implementation and the "
+        "end-to-end sentence (commit, reload in a fresh cache, abort) are the bounded stand-in persist_rt with the "
+        "stub data manager rtc/stubdb.py." % len(fns))
